@@ -51,16 +51,34 @@ func c09LMTP(t *testing.T, out *vh.Out, spec string) {
 	utf8 := f[0] == "1"
 	dataFail := f[2] == "1"
 	openFail := len(f) > 3 && f[3] == "1"
+	dropAfter := -1
+	if len(f) > 4 && f[4] != "-" {
+		dropAfter, _ = strconv.Atoi(f[4])
+	}
 	testPort = vsmtp.FreePort()
-	srv, err := vsmtp.Start("127.0.0.1:"+testPort, utf8, true)
-	if err != nil {
-		testPort = vsmtp.FreePort()
+	var srv *vsmtp.Server
+	var raw *vsmtp.RawLMTP
+	var err error
+	if dropAfter >= 0 {
+		raw, err = vsmtp.StartRawLMTP("127.0.0.1:" + testPort)
+		if err != nil {
+			t.Fatal(err)
+		}
+		defer raw.Close()
+		raw.UTF8 = utf8
+		raw.SendStatuses = dropAfter
+		srv = &vsmtp.Server{Script: vsmtp.NewScript()}
+	} else {
 		srv, err = vsmtp.Start("127.0.0.1:"+testPort, utf8, true)
+		if err != nil {
+			testPort = vsmtp.FreePort()
+			srv, err = vsmtp.Start("127.0.0.1:"+testPort, utf8, true)
+		}
+		if err != nil {
+			t.Fatal(err)
+		}
+		defer srv.Close()
 	}
-	if err != nil {
-		t.Fatal(err)
-	}
-	defer srv.Close()
 	type rc struct {
 		id     int
 		form   byte
@@ -87,6 +105,21 @@ func c09LMTP(t *testing.T, out *vh.Out, spec string) {
 			}
 		}
 	})
+	if raw != nil {
+		srv.Script.Set(func(s *vsmtp.Script) {
+			raw.RejectRcpt = s.RejectRcpt
+			for _, r := range rcs {
+				if !r.accept {
+					continue
+				}
+				if r.ok {
+					raw.StatusCodes = append(raw.StatusCodes, 250)
+				} else {
+					raw.StatusCodes = append(raw.StatusCodes, 452)
+				}
+			}
+		})
+	}
 	mod := &Downstream{
 		hostname:  "mx.example.invalid",
 		endpoints: []config.Endpoint{{Scheme: "tcp", Host: "127.0.0.1", Port: testPort}},
@@ -118,6 +151,10 @@ func c09LMTP(t *testing.T, out *vh.Out, spec string) {
 	}
 	if dataFail || openFail {
 		serverSt = nil
+	}
+	if dropAfter >= 0 && dropAfter < len(serverSt) && !openFail {
+		serverSt = serverSt[:dropAfter]
+		out.Stat("lmtp.dropped-midway")
 	}
 	var mu sync.Mutex
 	var st []string
@@ -234,6 +271,11 @@ func TestVerifC09LMTP(t *testing.T) {
 		if r.Chance(8) {
 			of = 1
 		}
-		c09LMTP(t, out, fmt.Sprintf("%d/%s/%d/%d", r.Intn(2), strings.Join(rs, ","), df, of))
+		drop := "-"
+		if r.Chance(30) {
+			drop = strconv.Itoa(r.Intn(nr + 1))
+			df = 0 // the raw responder does not script DATA refusals
+		}
+		c09LMTP(t, out, fmt.Sprintf("%d/%s/%d/%d/%s", r.Intn(2), strings.Join(rs, ","), df, of, drop))
 	}
 }
